@@ -26,6 +26,7 @@ import TdVerif.Lemmas.C08Squeeze2
 import TdVerif.Lemmas.C08View
 import TdVerif.Lemmas.C08UpdateAt
 import TdVerif.Lemmas.C08Mask2Span
+import TdVerif.Lemmas.C08SetMask2
 import TdVerif.Lemmas.C08Out
 import TdVerif.Lemmas.C08Out2
 import TdVerif.Lemmas.C08Out3
@@ -318,7 +319,7 @@ theorem update_at_write_through [Inhabited α] (L : Lazy α) (b : Shape) (keys :
     L'.sd = L.sd ∧ Uniform L' b keys feat ∧ L'.members.length = L.members.length ∧
     ∀ k ∈ keys, IsSetT ix ((absL L).leaf k) (v.leaf k) ((absL L').leaf k) :=
   setitem_refines_core L b keys feat hU hne0 ix hp hne hadv hnd hdist v hvk hvl v.batch hbd L'
-    (lazyUpdateAt_eq_set L ix0 ix v hix hbd L' h)
+    (lazyUpdateAt_eq_set L ix0 ix v hix hbd (plain_noBool L ix hp hne hadv) L' h)
 
 /-- **Writes with a rank-1 boolean mask on the stack dim** (`lazy[…, mask, …] = v`): the members
 the mask keeps receive, in order, the successive slices of the value along
@@ -335,6 +336,26 @@ theorem setitem_write_through_mask1 [Inhabited α] (L : Lazy α) (b : Shape) (ke
     L'.sd = L.sd ∧ Uniform L' b keys feat ∧ L'.members.length = L.members.length ∧
     ∀ k ∈ keys, IsSetT ix ((absL L).leaf k) (v.leaf k) ((absL L').leaf k) :=
   setitem_refines_mask1 L b keys feat hU hne0 ix hp hne hadv m hitem hnd v hvk hvl bd hbd L' h
+
+/-- **Writes with a rank-2 mask on the stack dim** (`lazy[pre…, mask2d, post…] = v`, the mask covering
+the stack dim and the next one; ints / slices / None around it): the value is split along
+`split_dim = mask_loc - num_single` by the number of True entries of every row, and member `i` is
+written through row `i` of the mask with its piece (`self[(:,)*stack_dim + (i,)][_idx] = value_i`).
+The dense stack of the members afterwards is `IsSetT` of the dense stack before — hit and frame,
+as in `setitem_write_through`. -/
+theorem setitem_write_through_mask2 [Inhabited α] (L : Lazy α) (b : Shape) (keys : List String)
+    (feat : String → Shape) (hU : Uniform L b keys feat) (hne0 : L.members ≠ []) (pre post : List Ix)
+    (m : T Bool) (w : Nat)
+    (hpre : BasicPre pre) (hpd : preDims pre = L.sd) (hpost : Basic post)
+    (hsdlt : L.sd < b.length) (hm : m.shape = [L.members.length, w])
+    (v : TD α) (hvk : v.keys = keys) (hvl : ∀ k ∈ keys, (v.leaf k).shape = v.batch ++ feat k)
+    (hbd : idxShape (pre ++ .mask m :: post) (absL L).batch = some v.batch)
+    (L' : Lazy α) (h : lazySetCoreM L (pre ++ .mask m :: post) v = some L') :
+    L'.sd = L.sd ∧ Uniform L' b keys feat ∧ L'.members.length = L.members.length ∧
+    ∀ k ∈ keys, IsSetT (pre ++ .mask m :: post) ((absL L).leaf k) (v.leaf k) ((absL L').leaf k) :=
+  setitem_refines_mask2_on L b keys feat hU hne0 pre post m w hpre hpd (fun it h => (hpost it h).2) hsdlt hm
+    (fun i => noDupTargets_pre_mask1 pre post (m.select 0 i) hpre hpost (by simp [T.select, hm]))
+    v hvk hvl hbd L' h
 
 /-- **Writes, stage 1** against the executable dense spec: for a basic index (ints, slices,
 None) the dense stack of the members after `lazy[ix] = v` IS `dense[ix] = v` (batch size, keys,
@@ -1008,6 +1029,14 @@ example : (((absL exL).index [.mask (T.ofList [2, 3] [true, false, true, false, 
 example : BasicPre ([] : List Ix) ∧ preDims ([] : List Ix) + 1 = exL.sd ∧ Basic ([] : List Ix) := by
   refine ⟨trivial, rfl, ?_⟩
   intro it hit; simp at hit
+-- write with a rank-2 mask on the stack dim of a stack along dim 0 (batch [2, 2]): rows [T, F] and [T, T]
+example : (match lazySetCoreM (⟨[exM 0, exM 1], 0⟩ : Lazy Int) [.mask (T.ofList [2, 2] [true, false, true, true])]
+      { batch := [3], keys := ["a"], leaf := fun _ => T.arange 500 [3] } with
+    | some L' => L'.members.map fun x => (x.leaf "a").toList | none => []) = [[500, 1], [501, 502]] := by decide
+-- … and spanning the stack dim of `exL` (modelled + corresponded): rows [T, F, T] and [F, F, T]
+example : (match lazySetCoreM exL [.mask (T.ofList [2, 3] [true, false, true, false, false, true])]
+      { batch := [3], keys := ["a"], leaf := fun _ => T.arange 500 [3] } with
+    | some L' => L'.members.map fun x => (x.leaf "a").toList | none => []) = [[500, 1], [10, 11], [501, 502]] := by decide
 -- view / flatten: `exL.view(6)` = `exL.flatten(0, 1)`: 6 pieces (plain tensordicts) stacked along 0
 example : (match lazyView exL [6] with
     | some (.lazy i ps) => (i, ps.length, (absR2 (.lazy i ps)).batch, ((absR2 (.lazy i ps)).leaf "a").toList)
